@@ -117,7 +117,7 @@ pub fn judge_c02(rec: &mut Recorder, c: &HistCase, ex: Exec, _hello: &Value) -> 
         // is demanded all the same (checked below)
         let unmet = counted.iter().any(|c| c.2 != c.3);
         if let Some(p) = &l.drop_panicked {
-            if !(unmet && l.exit == "normal" && p.contains("expected to be called")) {
+            if !(unmet && l.exit == "normal") {
                 return rec.fail(&sig("scope-exit-panicked"), format!("lifetime {li} ({}): {p}; case {c:?}", l.exit));
             }
             rec.class("exit/verification-panic-with-fakes-installed");
@@ -179,10 +179,9 @@ pub fn judge_c12(rec: &mut Recorder, c: &HistCase, ex: Exec, _hello: &Value) -> 
                     _ => {}
                 }
             }
-            let kept: BTreeSet<u64> = s.tramps.iter().map(|t| t.0).collect();
-            if s.kind.starts_with("install") && s.panicked.is_none() && kept.len() != 1 {
-                return rec.fail(&sig("install-keeps-not-exactly-one-mapping"), format!("lifetime {li}: {} kept {} mappings ({kept:x?}); case {c:?}", s.kind, kept.len()));
-            }
+            // (how many mappings an installation keeps is the implementation's business: a pooled
+            // design may keep none; what is demanded is that whatever is kept is released exactly
+            // once at scope exit and that nothing else is ever unmapped)
         }
         let installs = l.steps.iter().filter(|s| s.kind.starts_with("install") && s.panicked.is_none()).count();
         // live executable anonymous mappings during the lifetime == live installs: checked at
